@@ -3,9 +3,11 @@ package main
 import (
 	"fmt"
 	"go/ast"
+	"go/constant"
 	"go/token"
 	"go/types"
 	"regexp"
+	"sort"
 	"strings"
 
 	"golang.org/x/tools/go/packages"
@@ -34,7 +36,7 @@ func init() {
 	})
 	register(&Rule{
 		Name:  "FP-CONST-SIGN",
-		Doc:   "the float printer never returns a constant numeric spelling without having examined the sign: a `return \"0.0\"`-like statement in the printer's function set (Float.Ident and what it calls) is guarded by a condition that reads Signbit of the value — big.Float distinguishes −0 from +0 and Sign() is 0 for both, so a constant spelling for `Sign() == 0` prints −0.0 as 0.0",
+		Doc:   "the float printer never returns a constant numeric spelling without having examined the sign: a `return \"0.0\"`-like statement in the printer's function set (Float.Ident and what it calls) is guarded by a condition that reads Signbit of the value — big.Float distinguishes −0 from +0 and Sign() is 0 for both, so a constant spelling for `Sign() == 0` prints −0.0 as 0.0; likewise no function of ir/constant orders big.Float.Sign() against zero (the sign is read with Signbit: a negative NaN decoded from a hexadecimal literal is held as −0)",
 		Run:   ruleFPCONSTSIGN,
 	})
 	register(&Rule{
@@ -511,9 +513,49 @@ func ruleFPCONSTSIGN(c *Ctx) []Obligation {
 			return true
 		})
 	}
+	// the sign of a floating-point constant is read with Signbit: Sign() is 0 for −0, which is a value of
+	// its own and the carrier of the sign of the NaNs decoded by the 0xH / 0xK / 0xL / 0xM codecs
+	signCmp := 0
+	c.eachFunc(pkgCONS, func(_ *packages.Package, fd *ast.FuncDecl, fn *types.Func) {
+		k := 0
+		ast.Inspect(fd.Body, func(nd ast.Node) bool {
+			be, ok := nd.(*ast.BinaryExpr)
+			if !ok {
+				return true
+			}
+			switch be.Op {
+			case token.LSS, token.GTR, token.LEQ, token.GEQ:
+			default:
+				return true
+			}
+			for _, side := range []ast.Expr{be.X, be.Y} {
+				call, ok := unparen(side).(*ast.CallExpr)
+				if !ok {
+					continue
+				}
+				f := calleeOf(info, call)
+				if f == nil || f.Name() != "Sign" || f.Pkg() == nil || f.Pkg().Path() != "math/big" {
+					continue
+				}
+				if rt := f.Type().(*types.Signature).Recv(); rt == nil || !isNamedPtr(rt.Type(), "math/big", "Float") {
+					continue
+				}
+				signCmp++
+				k++
+				obs = append(obs, Obligation{Key: fmt.Sprintf("%s reads a sign through big.Float.Sign #%d", funcKey(fn), k), Pos: c.pos(be.Pos()), Verdict: VIOL,
+					Detail: "`" + exprString(be) + "`: Sign() is 0 for negative zero, which is how the sign of a NaN decoded from a hexadecimal literal (and of −0.0) is held; Signbit reads it — a negative NaN of those forms prints with the sign bit cleared"})
+			}
+			return true
+		})
+	})
 	obs = append(obs, Obligation{Key: "float printer: no constant spelling ahead of the sign", Pos: c.pos(c.funcDecl(identFn).Pos()), Verdict: OK,
 		Detail: fmt.Sprintf("%d return statements in the %d functions of the printer's set examined", returns, len(PF))})
 	return obs
+}
+
+func isNamedPtr(t types.Type, pkg, name string) bool {
+	pt, ok := t.(*types.Pointer)
+	return ok && isNamed(pt.Elem(), pkg, name)
 }
 
 func ruleFPNANCMP(c *Ctx) []Obligation {
@@ -594,5 +636,1023 @@ func ruleFPNANCMP(c *Ctx) []Obligation {
 	}
 	obs = append(obs, Obligation{Key: "float reader: no rejection by comparison ahead of the NaN test", Pos: c.pos(c.funcDecl(readFn).Pos()), Verdict: OK,
 		Detail: fmt.Sprintf("%d if statements in the %d functions of the reader's set examined", ifs, len(RF))})
+	return obs
+}
+
+// ---------------------------------------------------------------------------
+// ENUM-ARR
+
+func init() {
+	register(&Rule{
+		Name: "ENUM-ARR",
+		Doc:  "an array indexed by a value of an enumerated type has room for every declared member: for every index expression A[e] in the module where A is an array of constant length N and e has an integer enum type of the module, the largest declared member is below N — an array sized by the last enumerator itself (`[enum.FuncAttrWriteOnly]bool`) is one short, and indexing it with that member panics (the compiler checks constant indices only)",
+		Run:  ruleENUMARR,
+	})
+}
+
+func ruleENUMARR(c *Ctx) []Obligation {
+	var obs []Obligation
+	maxOf := map[*types.Named]*types.Const{}
+	maxMember := func(et *types.Named) *types.Const {
+		if m, ok := maxOf[et]; ok {
+			return m
+		}
+		var best *types.Const
+		sc := et.Obj().Pkg().Scope()
+		for _, nm := range sc.Names() {
+			k, ok := sc.Lookup(nm).(*types.Const)
+			if !ok || namedOf(k.Type()) != et || k.Val().Kind() != constant.Int {
+				continue
+			}
+			if best == nil || constant.Compare(k.Val(), token.GTR, best.Val()) {
+				best = k
+			}
+		}
+		maxOf[et] = best
+		return best
+	}
+	sites := 0
+	for _, p := range c.llvmPkgs() {
+		generated := map[*ast.File]bool{}
+		for _, f := range p.Syntax {
+			generated[f] = isGeneratedFile(f)
+		}
+		c.eachFunc(p.PkgPath, func(p *packages.Package, fd *ast.FuncDecl, fn *types.Func) {
+			info := p.TypesInfo
+			// stringer output indexes its tables with range-checked, re-based values
+			for f, g := range generated {
+				if g && f.Pos() <= fd.Pos() && fd.End() <= f.End() {
+					return
+				}
+			}
+			n := 0
+			ast.Inspect(fd.Body, func(nd ast.Node) bool {
+				ix, ok := nd.(*ast.IndexExpr)
+				if !ok {
+					return true
+				}
+				et := namedOf(info.TypeOf(ix.Index))
+				if et == nil || et.Obj().Pkg() == nil || !c.isLLVM(et.Obj().Pkg().Path()) {
+					return true
+				}
+				// a bound test on the array in the same function: the index is range-checked by hand
+				guarded := false
+				want := "len(" + strings.ReplaceAll(exprString(ix.X), " ", "") + ")"
+				ast.Inspect(fd.Body, func(k ast.Node) bool {
+					if call, ok := k.(*ast.CallExpr); ok && strings.ReplaceAll(exprString(call), " ", "") == want {
+						guarded = true
+					}
+					return !guarded
+				})
+				if guarded {
+					return true
+				}
+				if b, ok := et.Underlying().(*types.Basic); !ok || b.Info()&types.IsInteger == 0 {
+					return true
+				}
+				if info.Types[ix.Index].Value != nil {
+					return true // a constant index is checked by the compiler
+				}
+				xt := info.TypeOf(ix.X)
+				if xt == nil {
+					return true
+				}
+				if pt, ok := xt.Underlying().(*types.Pointer); ok {
+					xt = pt.Elem()
+				}
+				at, ok := xt.Underlying().(*types.Array)
+				if !ok {
+					return true
+				}
+				m := maxMember(et)
+				if m == nil {
+					return true
+				}
+				sites++
+				n++
+				mv, _ := constant.Int64Val(m.Val())
+				o := Obligation{Key: fmt.Sprintf("%s: array %s indexed by %s #%d has room for every member", funcKey(fn), types.ExprString(ix.X), typeKey(et), n), Pos: c.pos(ix.Pos()), Verdict: OK,
+					Detail: fmt.Sprintf("length %d, largest member %s = %d", at.Len(), m.Name(), mv)}
+				if mv >= at.Len() {
+					o.Verdict = VIOL
+					o.Detail = fmt.Sprintf("the array has length %d but the largest declared member of %s is %s = %d: indexing with that member is out of range and panics at run time", at.Len(), typeKey(et), m.Name(), mv)
+				}
+				obs = append(obs, o)
+				return true
+			})
+		})
+	}
+	obs = append(obs, Obligation{Key: "arrays indexed by enum values examined", Verdict: OK, Detail: fmt.Sprintf("%d index expression(s) on fixed-length arrays with an enum-typed, non-constant index", sites)})
+	return obs
+}
+
+// ---------------------------------------------------------------------------
+// ENC-VERB
+
+func init() {
+	register(&Rule{
+		Name:  "ENC-VERB",
+		Doc:   "an identifier encoder of internal/enc writes its argument verbatim and unquoted only when every byte of it is an identifier character: for every func(name string) string of the package and every `+` chain in it that contains the parameter itself (not the output of an escaper) and fewer than two quote literals, the enclosing guard — strconv.ParseUint/ParseInt succeeded, or a predicate over the bytes — accepts only bytes of LLVM's identifier alphabet [-a-zA-Z$._0-9]; a guard that requires a byte outside it (a name that starts and ends with a quote, say) makes two different names print alike, and an unrecognised guard is undecided",
+		Floor: 1,
+		Run:   ruleENCVERB,
+	})
+}
+
+// requiredBytes: bytes a predicate func(s string) bool insists on — `if … s[K] != 'c' … { return false }`.
+func requiredBytes(info *types.Info, fd *ast.FuncDecl) []byte {
+	var out []byte
+	if fd.Type.Params == nil || len(fd.Type.Params.List) != 1 || len(fd.Type.Params.List[0].Names) != 1 {
+		return nil
+	}
+	param := info.ObjectOf(fd.Type.Params.List[0].Names[0])
+	for _, st := range fd.Body.List {
+		is, ok := st.(*ast.IfStmt)
+		if !ok || len(is.Body.List) != 1 {
+			continue
+		}
+		ret, ok := is.Body.List[0].(*ast.ReturnStmt)
+		if !ok || len(ret.Results) != 1 || exprString(ret.Results[0]) != "false" {
+			continue
+		}
+		conds := []ast.Expr{is.Cond}
+		for i := 0; i < len(conds); i++ {
+			be, ok := unparen(conds[i]).(*ast.BinaryExpr)
+			if !ok {
+				continue
+			}
+			if be.Op == token.LOR {
+				conds = append(conds, be.X, be.Y)
+				continue
+			}
+			if be.Op != token.NEQ {
+				continue
+			}
+			ix, ok := unparen(be.X).(*ast.IndexExpr)
+			if !ok {
+				continue
+			}
+			if id, ok := unparen(ix.X).(*ast.Ident); !ok || info.ObjectOf(id) != param {
+				continue
+			}
+			if v := info.Types[be.Y].Value; v != nil && v.Kind() == constant.Int {
+				if n, ok := constant.Int64Val(v); ok && n >= 0 && n < 256 {
+					out = append(out, byte(n))
+				}
+			}
+		}
+	}
+	return out
+}
+
+func ruleENCVERB(c *Ctx) []Obligation {
+	var obs []Obligation
+	var alphabet [256]bool
+	for _, b := range []byte("-$._abcdefghijklmnopqrstuvwxyzABCDEFGHIJKLMNOPQRSTUVWXYZ0123456789") {
+		alphabet[b] = true
+	}
+	c.eachFunc(pkgENC, func(p *packages.Package, fd *ast.FuncDecl, fn *types.Func) {
+		info := p.TypesInfo
+		sig := fn.Type().(*types.Signature)
+		if sig.Recv() != nil || sig.Params().Len() != 1 || sig.Results().Len() != 1 || !isPlainString(sig.Params().At(0).Type()) || !isPlainString(sig.Results().At(0).Type()) || !fn.Exported() {
+			return
+		}
+		param := types.Object(sig.Params().At(0))
+		pm := buildParents(fd)
+		n := 0
+		ast.Inspect(fd.Body, func(nd ast.Node) bool {
+			be, ok := nd.(*ast.BinaryExpr)
+			if !ok || be.Op != token.ADD {
+				return true
+			}
+			if par, ok := pm[be].(*ast.BinaryExpr); ok && par.Op == token.ADD {
+				return true
+			}
+			if tv := info.Types[be]; tv.Value != nil || !isPlainString(tv.Type) {
+				return true
+			}
+			var operands []ast.Expr
+			var flat func(e ast.Expr)
+			flat = func(e ast.Expr) {
+				if b, ok := unparen(e).(*ast.BinaryExpr); ok && b.Op == token.ADD {
+					flat(b.X)
+					flat(b.Y)
+					return
+				}
+				operands = append(operands, unparen(e))
+			}
+			flat(be)
+			quotes, raw := 0, false
+			for _, op := range operands {
+				if tv := info.Types[op]; tv.Value != nil && tv.Value.Kind() == constant.String && strings.Contains(constant.StringVal(tv.Value), `"`) {
+					quotes++
+				}
+				if id, ok := op.(*ast.Ident); ok && info.ObjectOf(id) == param {
+					raw = true
+				}
+			}
+			if !raw || quotes >= 2 {
+				return true // quoted by hand: ENC-SET
+			}
+			for q := pm[be]; q != nil; q = pm[q] {
+				if call, ok := q.(*ast.CallExpr); ok {
+					fs := exprString(call.Fun)
+					if fs == "panic" || strings.HasSuffix(fs, "Errorf") || strings.HasSuffix(fs, "errors.New") {
+						return true
+					}
+				}
+			}
+			n++
+			o := Obligation{Key: fmt.Sprintf("%s writes its argument verbatim and unquoted #%d", funcKey(fn), n), Pos: c.pos(be.Pos()), Verdict: OK}
+			acc, how, ok := c.guardAccepts(info, pm, be, param)
+			if ok {
+				var bad []string
+				for b := 0; b < 256; b++ {
+					if acc[b] && !alphabet[b] {
+						bad = append(bad, fmt.Sprintf("%#02x", b))
+					}
+				}
+				if len(bad) > 0 {
+					o.Verdict = VIOL
+					o.Detail = fmt.Sprintf("the guard (%s) lets bytes %s through to the unquoted spelling, which are not identifier characters: the lexer ends the name there, or reads the text as another name", how, strings.Join(bad, " "))
+				} else {
+					o.Detail = "guard " + how + " accepts identifier characters only"
+				}
+				obs = append(obs, o)
+				return true
+			}
+			// a predicate that cannot be evaluated as a byte class: does it insist on a byte outside the alphabet?
+			o.Verdict, o.Detail = UNDECIDED, "the argument is written unquoted under a guard that is neither a strconv parse nor a byte-class predicate"
+			child := ast.Node(be)
+			for q := pm[be]; q != nil; child, q = q, pm[q] {
+				is, isIf := q.(*ast.IfStmt)
+				if !isIf || child != ast.Node(is.Body) {
+					continue
+				}
+				if call, ok := unparen(is.Cond).(*ast.CallExpr); ok && len(call.Args) == 1 {
+					if f := calleeOf(info, call); f != nil && f.Pkg() != nil {
+						if pfd := c.funcDecl(f); pfd != nil && pfd.Body != nil {
+							for _, b := range requiredBytes(c.declPkg[pfd].TypesInfo, pfd) {
+								if !alphabet[b] {
+									o.Verdict = VIOL
+									o.Detail = fmt.Sprintf("the guard %s requires the byte %q in the name, which is not an identifier character, and the name is then written verbatim and unquoted: the text is read back as a different name (a quoted one with the quotes stripped), so two different names print alike", f.Name(), string(rune(b)))
+								}
+							}
+						}
+					}
+				}
+			}
+			obs = append(obs, o)
+			return true
+		})
+	})
+	return obs
+}
+
+// ---------------------------------------------------------------------------
+// FMT-CONST
+
+func init() {
+	register(&Rule{
+		Name:  "FMT-CONST",
+		Doc:   "no printer hands data to fmt as a format string: in the IR packages every call of fmt.Sprintf / Fprintf / Appendf (and of the writer wrapper's Fprintf) outside diagnostics has a constant format argument — text that was already encoded (a quoted string may contain a raw `%`) and is then interpreted as a format prints `%!d(MISSING)` or swallows what follows, so the printed token no longer denotes the bytes held. One summary obligation per package, one violation per call with a non-constant format",
+		Floor: 4,
+		Run:   ruleFMTCONST,
+	})
+}
+
+func ruleFMTCONST(c *Ctx) []Obligation {
+	var obs []Obligation
+	for _, path := range []string{pkgENC, pkgIR, pkgCONS, pkgMD, pkgTYP} {
+		p := c.All[path]
+		if p == nil {
+			continue
+		}
+		info := p.TypesInfo
+		calls := 0
+		c.eachFunc(path, func(_ *packages.Package, fd *ast.FuncDecl, fn *types.Func) {
+			pm := buildParents(fd)
+			n := 0
+			ast.Inspect(fd.Body, func(nd ast.Node) bool {
+				call, ok := nd.(*ast.CallExpr)
+				if !ok {
+					return true
+				}
+				f := calleeOf(info, call)
+				if f == nil || f.Pkg() == nil || !strings.HasSuffix(f.Name(), "f") {
+					return true
+				}
+				sig := f.Type().(*types.Signature)
+				if !sig.Variadic() || sig.Params().Len() < 2 {
+					return true
+				}
+				fi := sig.Params().Len() - 2
+				if !isPlainString(sig.Params().At(fi).Type()) || fi >= len(call.Args) {
+					return true
+				}
+				switch {
+				case f.Pkg().Path() == "fmt" && (f.Name() == "Sprintf" || f.Name() == "Fprintf" || f.Name() == "Appendf" || f.Name() == "Printf"):
+				case c.isLLVM(f.Pkg().Path()) && f.Name() == "Fprintf":
+				default:
+					return true
+				}
+				for q := pm[call]; q != nil; q = pm[q] {
+					if oc, ok := q.(*ast.CallExpr); ok {
+						fs := exprString(oc.Fun)
+						if fs == "panic" || strings.HasSuffix(fs, "Errorf") || strings.HasSuffix(fs, "errors.New") || strings.HasPrefix(fs, "log.") {
+							return true
+						}
+					}
+				}
+				calls++
+				if info.Types[call.Args[fi]].Value != nil {
+					return true
+				}
+				// a wrapper forwarding its own format parameter (fmtWriter.Fprintf → fmt.Fprintf)
+				if id, ok := unparen(call.Args[fi]).(*ast.Ident); ok {
+					if v, ok := info.ObjectOf(id).(*types.Var); ok {
+						ps := fn.Type().(*types.Signature).Params()
+						for i := 0; i < ps.Len(); i++ {
+							if ps.At(i) == v {
+								return true
+							}
+						}
+					}
+				}
+				// a local closure forwarding its own format parameter (addField := func(format string, a ...interface{}) { … Sprintf(format, a...) }):
+				// judged at the calls of the closure
+				if id, ok := unparen(call.Args[fi]).(*ast.Ident); ok {
+					forwarded := false
+					for q := pm[call]; q != nil; q = pm[q] {
+						fl, ok := q.(*ast.FuncLit)
+						if !ok {
+							continue
+						}
+						k := 0
+						for _, fld := range fl.Type.Params.List {
+							for _, pn := range fld.Names {
+								if info.Defs[pn] == info.ObjectOf(id) {
+									forwarded = true
+									// the variable the closure is bound to
+									if as, ok := pm[fl].(*ast.AssignStmt); ok && len(as.Lhs) == 1 {
+										if vid, ok := as.Lhs[0].(*ast.Ident); ok {
+											vobj := info.ObjectOf(vid)
+											pk := k
+											ast.Inspect(fd.Body, func(m ast.Node) bool {
+												cc, ok := m.(*ast.CallExpr)
+												if !ok {
+													return true
+												}
+												if cid, ok := unparen(cc.Fun).(*ast.Ident); ok && info.ObjectOf(cid) == vobj && pk < len(cc.Args) && info.Types[cc.Args[pk]].Value == nil {
+													n++
+													obs = append(obs, Obligation{Key: fmt.Sprintf("%s: format of %s #%d is a constant", funcKey(fn), vid.Name, n), Pos: c.pos(cc.Pos()), Verdict: VIOL,
+														Detail: "the format handed to the local formatting closure, `" + exprString(cc.Args[pk]) + "`, is computed from data"})
+												}
+												return true
+											})
+										}
+									}
+								}
+								k++
+							}
+						}
+						break
+					}
+					if forwarded {
+						return true
+					}
+				}
+				n++
+				obs = append(obs, Obligation{Key: fmt.Sprintf("%s: format of %s #%d is a constant", funcKey(fn), f.Name(), n), Pos: c.pos(call.Pos()), Verdict: VIOL,
+					Detail: "the format argument `" + exprString(call.Args[fi]) + "` is computed from data: a `%` in it (quoted strings keep `%` raw) is interpreted by fmt, so the output is not the text that was assembled"})
+				return true
+			})
+		})
+		obs = append(obs, Obligation{Key: "package " + strings.TrimPrefix(path, modLLVM+"/") + ": formats are constants", Pos: path, Verdict: OK,
+			Detail: fmt.Sprintf("%d formatting calls outside diagnostics examined", calls)})
+	}
+	return obs
+}
+
+// ---------------------------------------------------------------------------
+// SCRATCH-BUF
+
+func init() {
+	register(&Rule{
+		Name: "SCRATCH-BUF",
+		Doc:  "the translator hands no reused backing array to the IR: in package asm, a slice obtained by re-slicing a field of a longer-lived object to length zero (buf := fgen.scratch[:0]) and grown by append is not passed to a function of the IR packages, stored in a field of an IR object or placed in a composite literal of an IR type — the constructors keep the slice they are given, so the objects built from one buffer share their operand slots and a write through one changes the others. One summary obligation (re-slices examined), one violation per escaping use",
+		Run:  ruleSCRATCHBUF,
+	})
+}
+
+func ruleSCRATCHBUF(c *Ctx) []Obligation {
+	var obs []Obligation
+	reslices := 0
+	isIRPkg := func(path string) bool {
+		return c.isLLVM(path) && path != pkgASM && !strings.HasPrefix(path, pkgASM+"/") && !strings.Contains(path, "/internal/")
+	}
+	c.eachFunc(pkgASM, func(p *packages.Package, fd *ast.FuncDecl, fn *types.Func) {
+		info := p.TypesInfo
+		bufs := map[types.Object]token.Pos{}
+		isScratch := func(e ast.Expr) bool {
+			se, ok := unparen(e).(*ast.SliceExpr)
+			if !ok || se.High == nil || se.Low != nil && exprString(se.Low) != "0" {
+				return false
+			}
+			if tv := info.Types[se.High]; tv.Value == nil || tv.Value.ExactString() != "0" {
+				return false
+			}
+			_, isField := unparen(se.X).(*ast.SelectorExpr)
+			return isField
+		}
+		// collect buffers and their append chains (two passes reach chains of length two)
+		for pass := 0; pass < 2; pass++ {
+			ast.Inspect(fd.Body, func(nd ast.Node) bool {
+				as, ok := nd.(*ast.AssignStmt)
+				if !ok || len(as.Lhs) != len(as.Rhs) {
+					return true
+				}
+				for i, l := range as.Lhs {
+					id, ok := unparen(l).(*ast.Ident)
+					if !ok {
+						continue
+					}
+					r := unparen(as.Rhs[i])
+					if isScratch(r) {
+						if pass == 0 {
+							reslices++
+						}
+						bufs[info.ObjectOf(id)] = r.Pos()
+						continue
+					}
+					if call, ok := r.(*ast.CallExpr); ok && exprString(call.Fun) == "append" && len(call.Args) >= 1 {
+						if bid, ok := unparen(call.Args[0]).(*ast.Ident); ok {
+							if pos, isBuf := bufs[info.ObjectOf(bid)]; isBuf {
+								bufs[info.ObjectOf(id)] = pos
+							}
+						}
+					}
+				}
+				return true
+			})
+		}
+		if len(bufs) == 0 {
+			return
+		}
+		n := 0
+		report := func(pos token.Pos, what string) {
+			n++
+			obs = append(obs, Obligation{Key: fmt.Sprintf("%s: reused buffer reaches the IR #%d", funcKey(fn), n), Pos: c.pos(pos), Verdict: VIOL,
+				Detail: what + ": the slice shares its backing array with every other object built from the same buffer, so their operand slots alias — a write through the slot of one instruction changes another"})
+		}
+		isBuf := func(e ast.Expr) bool {
+			id, ok := unparen(e).(*ast.Ident)
+			if !ok {
+				return false
+			}
+			_, ok = bufs[info.ObjectOf(id)]
+			return ok
+		}
+		ast.Inspect(fd.Body, func(nd ast.Node) bool {
+			switch x := nd.(type) {
+			case *ast.CallExpr:
+				f := calleeOf(info, x)
+				if f == nil || f.Pkg() == nil || !isIRPkg(f.Pkg().Path()) {
+					return true
+				}
+				for _, a := range x.Args {
+					if isBuf(a) {
+						report(a.Pos(), "the buffer is passed to "+f.Pkg().Name()+"."+f.Name())
+					}
+				}
+			case *ast.AssignStmt:
+				for i, l := range x.Lhs {
+					if i < len(x.Rhs) && isBuf(x.Rhs[i]) {
+						if se, ok := unparen(l).(*ast.SelectorExpr); ok {
+							if nt := namedOf(info.TypeOf(se.X)); nt != nil && nt.Obj().Pkg() != nil && isIRPkg(nt.Obj().Pkg().Path()) {
+								report(x.Pos(), "the buffer is stored in "+typeKey(nt)+"."+se.Sel.Name)
+							}
+						}
+					}
+				}
+			case *ast.CompositeLit:
+				if nt := namedOf(info.TypeOf(x)); nt != nil && nt.Obj().Pkg() != nil && isIRPkg(nt.Obj().Pkg().Path()) {
+					for _, el := range x.Elts {
+						v := el
+						if kv, ok := el.(*ast.KeyValueExpr); ok {
+							v = kv.Value
+						}
+						if isBuf(v) {
+							report(v.Pos(), "the buffer is placed in a "+typeKey(nt)+" literal")
+						}
+					}
+				}
+			}
+			return true
+		})
+	})
+	obs = append(obs, Obligation{Key: "package asm: reused buffers stay out of the IR", Verdict: OK, Detail: fmt.Sprintf("%d zero-length re-slice(s) of fields examined", reslices)})
+	return obs
+}
+
+// ---------------------------------------------------------------------------
+// SHIFT-WIDTH
+
+func init() {
+	register(&Rule{
+		Name: "SHIFT-WIDTH",
+		Doc:  "a power of two computed in a machine integer stays inside it: for every shift `c << n` in the module with a constant left operand, a non-constant count and a signed 64-bit result (big.NewInt(1 << n), int64(1) << n) that lies under a guard bounding the count (`n < K`, `n <= K`), the largest admitted count leaves the sign bit alone (K ≤ 63 for `<`, ≤ 62 for `<=`, less the bit length of c beyond one) — `if n < 64 { big.NewInt(1 << n) }` is −2^63 for n = 63, which reads i63 s0x7FFF… as a positive number. Unguarded shifts are not judged. One summary obligation, one violation per offending shift",
+		Run:  ruleSHIFTWIDTH,
+	})
+}
+
+func ruleSHIFTWIDTH(c *Ctx) []Obligation {
+	var obs []Obligation
+	shifts := 0
+	for _, p := range c.llvmPkgs() {
+		c.eachFunc(p.PkgPath, func(p *packages.Package, fd *ast.FuncDecl, fn *types.Func) {
+			info := p.TypesInfo
+			pm := buildParents(fd)
+			n := 0
+			ast.Inspect(fd.Body, func(nd ast.Node) bool {
+				be, ok := nd.(*ast.BinaryExpr)
+				if !ok || be.Op != token.SHL {
+					return true
+				}
+				lv := info.Types[be.X].Value
+				if lv == nil || lv.Kind() != constant.Int || info.Types[be.Y].Value != nil {
+					return true
+				}
+				bt, ok := info.TypeOf(be).Underlying().(*types.Basic)
+				if !ok || bt.Kind() != types.Int64 && bt.Kind() != types.Int {
+					return true
+				}
+				cnt, ok := unparen(be.Y).(*ast.Ident)
+				if !ok {
+					if call, isConv := unparen(be.Y).(*ast.CallExpr); isConv && len(call.Args) == 1 {
+						if tv, ok := info.Types[call.Fun]; ok && tv.IsType() {
+							cnt, ok = unparen(call.Args[0]).(*ast.Ident)
+							if !ok {
+								return true
+							}
+						} else {
+							return true
+						}
+					} else {
+						return true
+					}
+				}
+				shifts++
+				lbits := int64(constant.BitLen(lv)) // 1 for the constant 1
+				// the guard: an enclosing if whose condition bounds the count from above
+				child := ast.Node(be)
+				for q := pm[be]; q != nil; child, q = q, pm[q] {
+					is, isIf := q.(*ast.IfStmt)
+					if !isIf || child != ast.Node(is.Body) {
+						continue
+					}
+					conds := []ast.Expr{is.Cond}
+					for i := 0; i < len(conds); i++ {
+						g, ok := unparen(conds[i]).(*ast.BinaryExpr)
+						if !ok {
+							continue
+						}
+						if g.Op == token.LAND {
+							conds = append(conds, g.X, g.Y)
+							continue
+						}
+						if g.Op != token.LSS && g.Op != token.LEQ {
+							continue
+						}
+						gid, ok := unparen(g.X).(*ast.Ident)
+						if !ok || info.ObjectOf(gid) != info.ObjectOf(cnt) {
+							continue
+						}
+						kv := info.Types[g.Y].Value
+						if kv == nil || kv.Kind() != constant.Int {
+							continue
+						}
+						k, _ := constant.Int64Val(kv)
+						maxCount := k
+						if g.Op == token.LSS {
+							maxCount = k - 1
+						}
+						n++
+						o := Obligation{Key: fmt.Sprintf("%s: shift %s stays below the sign bit #%d", funcKey(fn), exprString(be), n), Pos: c.pos(be.Pos()), Verdict: OK,
+							Detail: fmt.Sprintf("count ≤ %d under `%s`", maxCount, exprString(g))}
+						if maxCount+lbits > 63 {
+							o.Verdict = VIOL
+							o.Detail = fmt.Sprintf("under `%s` the count reaches %d, and %s shifted by %d does not fit a signed 64-bit integer (it is negative or wraps): the value computed for that width is wrong", exprString(g), maxCount, exprString(be.X), maxCount)
+						}
+						obs = append(obs, o)
+						return true
+					}
+				}
+				return true
+			})
+		})
+	}
+	obs = append(obs, Obligation{Key: "shifts of constants by variable counts examined", Verdict: OK, Detail: fmt.Sprintf("%d shift(s) with a signed 64-bit result", shifts)})
+	return obs
+}
+
+// ---------------------------------------------------------------------------
+// CTOR-PANIC
+
+func init() {
+	register(&Rule{
+		Name:  "CTOR-PANIC",
+		Doc:   "the parser calls no constructor of the IR packages that rejects its operands by panicking on a type comparison: for every function of ir, ir/constant, ir/types and ir/metadata that package asm calls, no panic in its body (or in a same-package helper it calls, depth 2) is guarded by a condition that compares types with Equal — input that LLVM accepts (an element spelled through a named non-struct type, a vector-of-pointers base) would crash the caller of the parser, since Equal on pointer types compares printed names. One obligation per constructor called from asm; the getelementptr constructors of ir and ir/constant are judged the same way although asm does not call them, because they must accept what the shared walk accepts",
+		Floor: 20,
+		Run:   ruleCTORPANIC,
+	})
+}
+
+func ruleCTORPANIC(c *Ctx) []Obligation {
+	var obs []Obligation
+	targets := map[*types.Func]bool{}
+	irPkgs := map[string]bool{pkgIR: true, pkgCONS: true, pkgTYP: true, pkgMD: true}
+	c.eachFunc(pkgASM, func(p *packages.Package, fd *ast.FuncDecl, _ *types.Func) {
+		ast.Inspect(fd.Body, func(nd ast.Node) bool {
+			if call, ok := nd.(*ast.CallExpr); ok {
+				if f := calleeOf(p.TypesInfo, call); f != nil && f.Pkg() != nil && irPkgs[f.Pkg().Path()] && f.Type().(*types.Signature).Recv() == nil {
+					targets[f] = true
+				}
+			}
+			return true
+		})
+	})
+	for _, path := range []string{pkgIR, pkgCONS} {
+		c.eachFunc(path, func(_ *packages.Package, fd *ast.FuncDecl, fn *types.Func) {
+			if fn.Type().(*types.Signature).Recv() == nil && strings.Contains(fn.Name(), "GetElementPtr") && strings.HasPrefix(fn.Name(), "New") {
+				targets[fn] = true
+			}
+		})
+	}
+	var typePanic func(fd *ast.FuncDecl, depth int, seen map[*ast.FuncDecl]bool) (token.Pos, string)
+	typePanic = func(fd *ast.FuncDecl, depth int, seen map[*ast.FuncDecl]bool) (token.Pos, string) {
+		if fd == nil || fd.Body == nil || seen[fd] {
+			return token.NoPos, ""
+		}
+		seen[fd] = true
+		info := c.declPkg[fd].TypesInfo
+		pm := buildParents(fd)
+		var pos token.Pos
+		var why string
+		ast.Inspect(fd.Body, func(nd ast.Node) bool {
+			if pos != token.NoPos {
+				return false
+			}
+			call, ok := nd.(*ast.CallExpr)
+			if !ok {
+				return true
+			}
+			if id, ok := unparen(call.Fun).(*ast.Ident); ok && id.Name == "panic" {
+				for _, cond := range condChain(pm, call) {
+					found := false
+					ast.Inspect(cond, func(k ast.Node) bool {
+						if cc, ok := k.(*ast.CallExpr); ok {
+							if se, ok := unparen(cc.Fun).(*ast.SelectorExpr); ok && se.Sel.Name == "Equal" {
+								if f := calleeOf(info, cc); f != nil && f.Pkg() != nil && f.Pkg().Path() == pkgTYP {
+									found = true
+								}
+							}
+						}
+						// a failed assertion to a concrete type kind: `t, ok := x.Type().(*types.PointerType); if !ok { panic }`
+						return !found
+					})
+					if found {
+						pos, why = call.Pos(), "panics under `"+exprString(cond)+"`"
+						return false
+					}
+				}
+				return true
+			}
+			if depth < 2 {
+				if f := calleeOf(info, call); f != nil && f.Pkg() != nil && f.Pkg() == c.declPkg[fd].Types {
+					if hp, hw := typePanic(c.funcDecl(f), depth+1, seen); hp != token.NoPos {
+						pos, why = hp, hw+" (in "+f.Name()+")"
+						return false
+					}
+				}
+			}
+			return true
+		})
+		return pos, why
+	}
+	var fns []*types.Func
+	for f := range targets {
+		fns = append(fns, f)
+	}
+	sort.Slice(fns, func(i, j int) bool { return funcKey(fns[i]) < funcKey(fns[j]) })
+	for _, f := range fns {
+		fd := c.funcDecl(f)
+		if fd == nil {
+			continue
+		}
+		o := Obligation{Key: funcKey(f) + " does not reject operands by a panicking type comparison", Pos: c.pos(fd.Pos()), Verdict: OK, Detail: "no panic under a types.Equal comparison"}
+		if pos, why := typePanic(fd, 0, map[*ast.FuncDecl]bool{}); pos != token.NoPos {
+			o.Verdict, o.Pos = VIOL, c.pos(pos)
+			o.Detail = "this constructor is on the parser's path (or is a getelementptr constructor) and " + why + ": Equal on pointer types compares printed names, so an operand spelled through a named non-struct type — valid LLVM — makes asm.Parse* crash its caller, and forms the shared gep walk accepts are rejected"
+		}
+		obs = append(obs, o)
+	}
+	return obs
+}
+
+// ---------------------------------------------------------------------------
+// CALL-SIG
+
+func init() {
+	register(&Rule{
+		Name:  "CALL-SIG",
+		Doc:   "a call-site printer spells the full function type whenever the signature of the call is variadic, whatever kind of value the callee is: in the printer of every IR type that has a Sig() method (call, invoke, callbr), and in the helpers it hands the callee to, every read of a Variadic flag has the result of that Sig() as its base (directly, or through a local or parameter bound to it) and one such read exists — a flag taken from the callee asserted to *ir.Func leaves out calls through bitcast constant expressions and inline assembler, whose printed text the parser then types differently",
+		Floor: 3,
+		Run:   ruleCALLSIG,
+	})
+}
+
+func ruleCALLSIG(c *Ctx) []Obligation {
+	var obs []Obligation
+	p := c.pkg(pkgIR)
+	if p == nil {
+		return nil
+	}
+	info := p.TypesInfo
+	sc := p.Types.Scope()
+	for _, nm := range sc.Names() {
+		tn, ok := sc.Lookup(nm).(*types.TypeName)
+		if !ok {
+			continue
+		}
+		named, ok := tn.Type().(*types.Named)
+		if !ok {
+			continue
+		}
+		var sigM, llM *types.Func
+		for i := 0; i < named.NumMethods(); i++ {
+			switch m := named.Method(i); m.Name() {
+			case "Sig":
+				sigM = m
+			case "LLString":
+				llM = m
+			}
+		}
+		if sigM == nil || llM == nil {
+			continue
+		}
+		fd, pfn := c.printerDecl(llM)
+		if fd == nil || fd.Body == nil {
+			continue
+		}
+		o := Obligation{Key: typeKey(named) + ".LLString takes the variadic flag from Sig()", Pos: c.pos(fd.Pos()), Verdict: VIOL, Detail: "no read of Sig().Variadic in the printer or the helpers it calls: the full function type is never (or not for every callee form) spelled"}
+		_ = pfn
+		var scan func(fd *ast.FuncDecl, sigVars map[types.Object]bool, depth int)
+		scan = func(fd *ast.FuncDecl, sigVars map[types.Object]bool, depth int) {
+			isSig := func(e ast.Expr) bool {
+				e = unparen(e)
+				if call, ok := e.(*ast.CallExpr); ok {
+					return calleeOf(info, call) == sigM
+				}
+				if id, ok := e.(*ast.Ident); ok {
+					return sigVars[info.ObjectOf(id)]
+				}
+				return false
+			}
+			// locals bound to Sig()
+			ast.Inspect(fd.Body, func(nd ast.Node) bool {
+				if as, ok := nd.(*ast.AssignStmt); ok && len(as.Lhs) == len(as.Rhs) {
+					for i, l := range as.Lhs {
+						if id, ok := l.(*ast.Ident); ok && isSig(as.Rhs[i]) {
+							sigVars[info.ObjectOf(id)] = true
+						}
+					}
+				}
+				return true
+			})
+			ast.Inspect(fd.Body, func(nd ast.Node) bool {
+				switch x := nd.(type) {
+				case *ast.SelectorExpr:
+					if x.Sel.Name != "Variadic" {
+						return true
+					}
+					if isSig(x.X) {
+						if o.Verdict == VIOL && strings.HasPrefix(o.Detail, "no read") {
+							o.Verdict, o.Detail = OK, "Sig().Variadic decides the spelling"
+						}
+					} else {
+						o.Verdict, o.Pos = VIOL, c.pos(x.Pos())
+						o.Detail = "the flag `" + exprString(x) + "` is not that of the call's Sig(): for a callee of another kind (a bitcast constant expression, inline assembler, a local function pointer) a variadic call is printed with its return type only, and the parser then derives a non-variadic signature from the arguments"
+					}
+				case *ast.CallExpr:
+					if depth >= 2 {
+						return true
+					}
+					f := calleeOf(info, x)
+					if f == nil || f.Pkg() == nil || f.Pkg().Path() != pkgIR || f == sigM {
+						return true
+					}
+					hfd := c.funcDecl(f)
+					if hfd == nil || hfd.Body == nil || hfd == fd {
+						return true
+					}
+					// only helpers that mention a Variadic flag matter
+					mentions := false
+					ast.Inspect(hfd.Body, func(k ast.Node) bool {
+						if se, ok := k.(*ast.SelectorExpr); ok && se.Sel.Name == "Variadic" {
+							mentions = true
+						}
+						return !mentions
+					})
+					if !mentions {
+						return true
+					}
+					inner := map[types.Object]bool{}
+					k := 0
+					for _, fl := range hfd.Type.Params.List {
+						for _, pn := range fl.Names {
+							if k < len(x.Args) && isSig(x.Args[k]) {
+								inner[info.Defs[pn]] = true
+							}
+							k++
+						}
+					}
+					scan(hfd, inner, depth+1)
+				}
+				return true
+			})
+		}
+		scan(fd, map[types.Object]bool{}, 0)
+		obs = append(obs, o)
+	}
+	return obs
+}
+
+// ---------------------------------------------------------------------------
+// CALL-SIG-AST
+
+func init() {
+	register(&Rule{
+		Name:  "CALL-SIG-AST",
+		Doc:   "the translators of call sites take the function type from the source, not from the instruction's cached result type: in package asm, the operand of every assertion to *types.FuncType that decides a call's signature is (a local bound to) the translated AST type — never the Typ field of an ir.InstCall / TermInvoke / TermCallBr, which the scaffold phase has already reduced to the return type, so that the assertion could not succeed and every variadic signature spelled in the source would be replaced by one derived from the arguments. One obligation per assertion to *types.FuncType in package asm; an operand that is a parameter of a helper is judged with the arguments passed for it",
+		Floor: 3,
+		Run:   ruleCALLSIGAST,
+	})
+}
+
+// hasSigAny: the expression (in whichever package of the module it was type-checked) has an IR type with a Sig() method.
+func hasSigAny(c *Ctx, e ast.Expr) bool {
+	for _, p := range c.llvmPkgs() {
+		if t := p.TypesInfo.TypeOf(e); t != nil {
+			n := namedOf(t)
+			if n == nil || n.Obj().Pkg() == nil || n.Obj().Pkg().Path() != pkgIR {
+				return false
+			}
+			for i := 0; i < n.NumMethods(); i++ {
+				if n.Method(i).Name() == "Sig" {
+					return true
+				}
+			}
+			return false
+		}
+	}
+	return false
+}
+
+func ruleCALLSIGAST(c *Ctx) []Obligation {
+	var obs []Obligation
+	c.eachFunc(pkgASM, func(p *packages.Package, fd *ast.FuncDecl, fn *types.Func) {
+		info := p.TypesInfo
+		defs := collectDefs(info, fd.Body)
+		n := 0
+		ast.Inspect(fd.Body, func(nd ast.Node) bool {
+			ta, ok := nd.(*ast.TypeAssertExpr)
+			if !ok || ta.Type == nil || !isNamedPtr(info.TypeOf(ta.Type), pkgTYP, "FuncType") {
+				return true
+			}
+			n++
+			o := Obligation{Key: fmt.Sprintf("%s: signature assertion #%d is on the translated source type", funcKey(fn), n), Pos: c.pos(ta.Pos()), Verdict: OK, Detail: "operand " + exprString(ta.X)}
+			srcs := []ast.Expr{ta.X}
+			if id, ok := unparen(ta.X).(*ast.Ident); ok {
+				srcs = append(srcs, defs[info.ObjectOf(id)]...)
+			}
+			// the operand may be a parameter of a shared helper (callSig(typ, args)): judged with every argument passed for it
+			if id, ok := unparen(ta.X).(*ast.Ident); ok {
+				ps := fn.Type().(*types.Signature).Params()
+				for pi := 0; pi < ps.Len(); pi++ {
+					if info.ObjectOf(id) != types.Object(ps.At(pi)) {
+						continue
+					}
+					c.eachFunc(pkgASM, func(p2 *packages.Package, fd2 *ast.FuncDecl, _ *types.Func) {
+						defs2 := collectDefs(p2.TypesInfo, fd2.Body)
+						ast.Inspect(fd2.Body, func(k ast.Node) bool {
+							if call, ok := k.(*ast.CallExpr); ok && calleeOf(p2.TypesInfo, call) == fn && pi < len(call.Args) {
+								srcs = append(srcs, call.Args[pi])
+								if aid, ok := unparen(call.Args[pi]).(*ast.Ident); ok {
+									srcs = append(srcs, defs2[p2.TypesInfo.ObjectOf(aid)]...)
+								}
+							}
+							return true
+						})
+					})
+				}
+			}
+			for _, s := range srcs {
+				if se, ok := unparen(s).(*ast.SelectorExpr); ok && se.Sel.Name == "Typ" && hasSigAny(c, se.X) {
+					o.Verdict = VIOL
+					o.Detail = "the asserted value is " + exprString(se) + ", the instruction's cached result type — the scaffold phase stores the return type there, so the assertion to *types.FuncType never succeeds and the signature spelled at the call site (`call i32 (i8*, ...) …`) is replaced by one built from the arguments: calls through constant expressions, undef or inline assembler lose their variadic type"
+				}
+			}
+			obs = append(obs, o)
+			return true
+		})
+	})
+	return obs
+}
+
+// ---------------------------------------------------------------------------
+// RUNE-SLICE
+
+func init() {
+	register(&Rule{
+		Name: "RUNE-SLICE",
+		Doc:  "text is cut by the unit it was measured in: in package asm (where diagnostics quote source text), a slice `[]rune(s)[:k]` — or of a local bound to such a conversion — lies under a guard on the length of that rune slice (or on utf8.RuneCountInString), not on len(s): the byte length admits strings with fewer runes than k, and the slice expression panics on them, so an error path (a duplicate definition that contains non-ASCII text) crashes the caller instead of returning the error. One summary obligation, one violation per offending slice",
+		Run:  ruleRUNESLICE,
+	})
+}
+
+func ruleRUNESLICE(c *Ctx) []Obligation {
+	var obs []Obligation
+	seenSlices := 0
+	for _, path := range []string{pkgASM, pkgIR, pkgENC} {
+		c.eachFunc(path, func(p *packages.Package, fd *ast.FuncDecl, fn *types.Func) {
+			info := p.TypesInfo
+			pm := buildParents(fd)
+			defs := collectDefs(info, fd.Body)
+			isRuneConv := func(e ast.Expr) bool {
+				call, ok := unparen(e).(*ast.CallExpr)
+				if !ok || len(call.Args) != 1 {
+					return false
+				}
+				tv, ok := info.Types[call.Fun]
+				if !ok || !tv.IsType() {
+					return false
+				}
+				sl, ok := tv.Type.Underlying().(*types.Slice)
+				if !ok {
+					return false
+				}
+				b, ok := sl.Elem().Underlying().(*types.Basic)
+				return ok && b.Kind() == types.Int32 && isStringNamed(info.TypeOf(call.Args[0]))
+			}
+			n := 0
+			ast.Inspect(fd.Body, func(nd ast.Node) bool {
+				se, ok := nd.(*ast.SliceExpr)
+				if !ok || se.High == nil {
+					return true
+				}
+				runes := isRuneConv(se.X)
+				var local types.Object
+				if id, ok := unparen(se.X).(*ast.Ident); ok {
+					for _, d := range defs[info.ObjectOf(id)] {
+						if isRuneConv(d) {
+							runes, local = true, info.ObjectOf(id)
+						}
+					}
+				}
+				if !runes {
+					return true
+				}
+				seenSlices++
+				n++
+				o := Obligation{Key: fmt.Sprintf("%s: rune slice %s is guarded by its own length #%d", funcKey(fn), exprString(se), n), Pos: c.pos(se.Pos()), Verdict: VIOL,
+					Detail: "no enclosing guard measures the rune slice (len of it, or utf8.RuneCountInString): a guard on the byte length admits strings with fewer runes than the bound, and the slice expression panics on them"}
+				want := strings.ReplaceAll(exprString(se.X), " ", "")
+				for _, cond := range condChain(pm, se) {
+					ast.Inspect(cond, func(k ast.Node) bool {
+						call, ok := k.(*ast.CallExpr)
+						if !ok {
+							return true
+						}
+						fs := exprString(call.Fun)
+						if strings.Contains(fs, "RuneCount") {
+							o.Verdict, o.Detail = OK, "guarded by a rune count"
+						}
+						if fs == "len" && len(call.Args) == 1 {
+							if strings.ReplaceAll(exprString(call.Args[0]), " ", "") == want {
+								o.Verdict, o.Detail = OK, "guarded by the length of the rune slice"
+							}
+							if id, ok := unparen(call.Args[0]).(*ast.Ident); ok && local != nil && info.ObjectOf(id) == local {
+								o.Verdict, o.Detail = OK, "guarded by the length of the rune slice"
+							}
+						}
+						return true
+					})
+				}
+				obs = append(obs, o)
+				return true
+			})
+		})
+	}
+	obs = append(obs, Obligation{Key: "slices of rune conversions examined", Verdict: OK, Detail: fmt.Sprintf("%d slice expression(s) on []rune conversions", seenSlices)})
 	return obs
 }
